@@ -34,10 +34,10 @@ CLAIMS = {
                      "Field::invert None only for zero; GroupEncoding for EdwardsPoint/SubgroupPoint = native decoder (+ into_subgroup); into_subgroup flag = torsion-free predicate; clear_cofactor = x8; SubgroupPoint constructors inventory. sqrt correctness on all residues is delegated to ff's helper (trusted)",
                 note="partial for behaviour, complete for the constants", ref="3.1, 3.6, 4 C17"),
     "C11": dict(cat="proof", tech="interval abstract interpretation of checked-mode MIR with inductive limb-bound type invariants (ABSINT engine)",
-                text="Serial u64 and u32 backends: every Assert(overflow / bounds / division) terminator, debug assertion and panicking call reachable from every exported function of curve25519-dalek (roots discovered, >=250 per backend, parameters at their type's limb-bound invariant) "
+                text="Serial u64 and u32 backends and the AVX2 vector backend (simd build: lane-wise interval models of the 27 intrinsics; every packed add / sub / shift-left that could wrap its lane and every 64-bit lane product used as a 32-bit multiplicand is an obligation; ExtendedPoint b<0.007 and CachedPoint b<1.0 are checked as inductive invariants of the vector point operations): every Assert(overflow / bounds / division) terminator, debug assertion and panicking call reachable from every exported function of curve25519-dalek (roots discovered, >=250 per backend, parameters at their type's limb-bound invariant) "
                      "and from the field kernels under their documented precondition is shown unreachable by a sound interval analysis; every value of an invariant-carrying type produced by a root re-establishes the invariant (so chains of operations are covered inductively). "
                      "Generic entry points (Straus, Pippenger per window width, Sum/Product folds, batch_invert, double_and_compress_batch, the ladder) are analysed over abstract collections. "
-                     "Residuals are reviewed obligations with reasons in props/C11.py (non-zero products in the two batch_invert routines; oddness of NAF digits; documented equal-length precondition of multiscalar_mul; the algebraic expect() in nonspec_map_to_curve) and assumptions A1-A4. Vector (AVX2/IFMA) and fiat kernels are not yet covered by the quick tier (see DESIGN.md)",
+                     "Residuals are reviewed obligations with reasons in props/C11.py (non-zero products in the two batch_invert routines; oddness of NAF digits; documented equal-length precondition of multiscalar_mul; the algebraic expect() in nonspec_map_to_curve) and assumptions A1-A4. IFMA and fiat kernels are not covered (see DESIGN.md)",
                 note="sound-by-construction interval domain over the compiler's checked-mode MIR; trusted: exporter, interpreter + library models, assumptions A1-A4 listed in the evidence", ref="3.2, 4 C11"),
     "C15": dict(cat="other", tech="panic-edge inventory over the resolved call graph + interval abstract interpretation from every untrusted-input entry point (PANIC + ABSINT engines)",
                 text="From every exported function that consumes bytes / encodings / signatures / Montgomery points (discovered by signature, 75 today), in the three crates: every Assert terminator and panic-capable call "
@@ -48,7 +48,7 @@ CLAIMS = {
     "C01": dict(cat="other", tech="monomial (exponent) abstract domain over the addition chains + literal limb-vector arithmetic against p + interval post-conditions of the byte codecs (EXPCHAIN, ABSINT)",
                 text="Decides necessary conditions only, NOT exactness of the limb kernels (value-level; stated as not decided): invert = x^(p-2), pow_p58 = x^((p-5)/8), pow22501 = (x^(2^250-1), x^11), sqrt_ratio_i forms the candidate root "
                      "u^((p+3)/8) v^(3+7(p-5)/8) and the check value v r^2 (monomial domain over the MIR of the chains, kernels abstracted by their algebraic meaning); every literal limb vector added before a reduce (sub, sub_assign, negate; u64 and u32) is a multiple of p; "
-                     "from_bytes yields limbs within nominal width (bit 255 dropped, value < 2^255) and as_bytes clears the top bit for every admissible representation (intervals). Absence of wrap-around in every field kernel is C11's",
+                     "from_bytes yields limbs within nominal width (bit 255 dropped, value < 2^255) and as_bytes clears the top bit for every admissible representation (intervals); in the limb kernels and repacking code (serial u64/u32 and AVX2 field) every low-bit mask that can drop bits has its carry companion `>> k` of the same value (no silent truncation). Absence of wrap-around in every field kernel is C11's",
                 note="partial; vector (AVX2/IFMA) field and fiat primitives not analysed; kernels' products are trusted here", ref="10.6"),
     "C02": dict(cat="other", tech="interval analysis with a magnitude contract at every montgomery_reduce call + monomial domain over the inversion chain + constructor / pack() inventory (ABSINT, EXPCHAIN, PATH)",
                 text="Decides necessary conditions only, NOT exactness of mul_internal / montgomery_reduce / add / sub (value-level; stated as not decided): every montgomery_reduce call reachable from the public Scalar API receives a value < l*R "
